@@ -131,6 +131,7 @@ def run_case(ctx, case):
             for _ in range(rng.randint(1, run.r.num_ops)):
                 o, m = run.choose(rng, "random_ready"); run.dispatch(o, m)
             mk = MakespanReward(run.d); idle = IdleTimeReward(run.d)
+            mk_at, idle_at = run.r.makespan(), run.r.idle_time()
             for n_since in range(1, rng.randint(0, run.r.num_ops - len(run.r.history)) + 1):
                 o, m = run.choose(rng, "random_ready"); run.dispatch(o, m)
                 for ob in (mk, idle):
@@ -138,6 +139,17 @@ def run_case(ctx, case):
                         ctx.violation("c13_reward_emitted_after_mid_history_attachment",
                                       {"observer": type(ob).__name__, "rewards": list(ob.rewards),
                                        "last_reward": ob.last_reward, "dispatches_since": n_since})
+                # from the attachment on the rewards add up to what the objective lost since then
+                ctx.count("sums_since_mid_history_attachment")
+                # (either reading of "the sum equals minus the objective" for an observer that joined
+                # late: counted from its attachment, or from the start of the schedule)
+                if sum(mk.rewards) not in (-(run.r.makespan() - mk_at), -run.r.makespan()) \
+                        or sum(idle.rewards) not in (-(run.r.idle_time() - idle_at), -run.r.idle_time()):
+                    ctx.violation("c13_sum_differs_from_objective",
+                                  {"where": "since a mid-history attachment", "history": list(run.r.history),
+                                   "makespan_rewards": list(mk.rewards), "makespan_then_now": [mk_at, run.r.makespan()],
+                                   "idle_rewards": list(idle.rewards), "idle_then_now": [idle_at, run.r.idle_time()]})
+                    break
             if any(x > 0 for x in mk.rewards + idle.rewards):
                 ctx.violation("c13_positive_reward", {"where": "attached mid-history",
                                                       "rewards": [mk.rewards, idle.rewards]})
@@ -291,6 +303,13 @@ def run_case(ctx, case):
             k = 0
             done = False
             while not done:
+                if case["seed"] % 3 == 0 and rng.random() < 0.3 and r.num_ops - len(r.history) >= 2:
+                    # an operation dispatched directly on the environment's dispatcher (warm start,
+                    # look-ahead by a rule solver ...) between two environment steps
+                    op0 = rng.choice(env.dispatcher.available_operations()); m0 = rng.choice(op0.machines)
+                    env.dispatcher.dispatch(op0, m0)
+                    r.apply(op0.operation_id, m0); k += 1
+                    ctx.count("direct_dispatches_between_env_steps")
                 ops = env.dispatcher.available_operations()
                 op = rng.choice(ops); m = rng.choice(op.machines)
                 n_before = len(env.reward_function.rewards)
